@@ -366,11 +366,13 @@ func merge(res *laneResult, inter map[uint64]struct{}) int64 {
 	return res.Evals
 }
 
-// raceLogs parses the race detector's log files and reports them; returns the number of reports.
-func raceLogs(prefix string, replayKey string) int {
+// raceLogs parses the race detector's log files (<prefix>.<pid>) and reports every data race with
+// a gortsplib frame in one of its two access stacks as a violation keyed by the sorted pair of the
+// innermost gortsplib functions. A race entirely inside the harness is a harness failure.
+func raceLogs(prefix string) {
 	files, _ := filepath.Glob(prefix + ".*")
-	total := 0
-	seen := map[string]bool{}
+	total, own := 0, 0
+	ownText := ""
 	for _, f := range files {
 		b, err := os.ReadFile(f)
 		if err != nil {
@@ -379,19 +381,24 @@ func raceLogs(prefix string, replayKey string) int {
 		for _, rep := range parseRaceReports(string(b)) {
 			total++
 			if !rep.lib {
-				fmt.Println(rep.text)
-				run.Fatal("the race detector reported a data race inside the harness itself (no gortsplib frame in either access stack); see %s", f)
+				own++
+				if ownText == "" {
+					ownText = rep.text
+				}
+				continue
 			}
-			key := "race/" + rep.pair
-			if !seen[key] {
-				seen[key] = true
-			}
-			run.Violation(key, "data race reported by the race detector between "+strings.ReplaceAll(rep.pair, "+", " and "),
+			run.Violation("race/"+rep.pair, "data race reported by the race detector between "+strings.ReplaceAll(rep.pair, "+", " and "),
 				map[string]any{"kind": "race", "report": rep.text, "log": f})
 		}
 	}
 	run.Count("race-reports", int64(total))
-	return total
+	if own > 0 {
+		run.Count("race-reports-inside-harness-only", int64(own))
+		fmt.Println(ownText)
+		if run.Violations() == 0 {
+			run.Fatal("the race detector reported %d data races inside the harness itself (no gortsplib frame in either access stack)", own)
+		}
+	}
 }
 
 func main() {
@@ -432,7 +439,7 @@ func main() {
 	fmt.Fprintf(os.Stderr, "sequential part: %.1fs\n", time.Since(t0).Seconds())
 
 	// (1)-(4) concurrent histories in lanes
-	n := run.Pick(3000, 100000)
+	n := run.Pick(3000, 60000)
 	if *flagN > 0 {
 		n = *flagN
 	}
@@ -498,7 +505,7 @@ func main() {
 		evals += merge(&res, inter)
 	}
 	run.Count("distinct-interleavings(yield-point-orderings)", int64(len(inter)))
-	raceLogs(racePrefix, "")
+	raceLogs(racePrefix)
 	if ownRaceDir != "" {
 		os.RemoveAll(ownRaceDir)
 	}
@@ -542,7 +549,7 @@ func replay(racePrefix string) {
 		}
 		verifhooks.SetYieldHook(nil)
 		merge(c.finish(), map[uint64]struct{}{})
-		raceLogs(racePrefix, wantKey)
+		raceLogs(racePrefix)
 		run.Finish(int64(n), "replay: concurrent workload re-run under the race detector")
 	default:
 		var w concWitness
@@ -572,7 +579,7 @@ func replay(racePrefix string) {
 		verifhooks.SetYieldHook(nil)
 		fmt.Printf("replay: workload re-run %d times with the same parameters, key reproduced %d times\n", n, hit)
 		merge(c.finish(), map[uint64]struct{}{})
-		raceLogs(racePrefix, wantKey)
+		raceLogs(racePrefix)
 		run.Finish(int64(n+1), "replay: stored history re-checked offline + workload re-run with the same parameters")
 	}
 }
